@@ -242,13 +242,19 @@ static void wkd_rows(void) {
     ROW(embedded_pairing_wkdibe_signature_get_marshalled_length, { bool c = t & 1; ok = embedded_pairing_wkdibe_signature_get_marshalled_length(c) == (c ? wk::Signature::marshalledLength<true> : wk::Signature::marshalledLength<false>); })
     ROW(embedded_pairing_wkdibe_masterkey_get_marshalled_length, { bool c = t & 1; ok = embedded_pairing_wkdibe_masterkey_get_marshalled_length(c) == (c ? wk::MasterKey::marshalledLength<true> : wk::MasterKey::marshalledLength<false>); })
     // length discovery and unmarshal
-    ROW(embedded_pairing_wkdibe_params_unmarshalled_length, { bool c = t & 1; size_t n = embedded_pairing_wkdibe_params_get_marshalled_length(&w.p, c) - (t % 3); embedded_pairing_wkdibe_params_marshal(m1, &w.p, c);
+    // zero-slot objects for the length rows: parameters of a hierarchy with no slots, a key without free slots
+    WK w0; memset(&w0, 0, sizeof w0); w0.p.h = w0.h; RESEED(78); embedded_pairing_wkdibe_setup(&w0.p, &w0.m, 0, true, rng_cb);
+    embedded_pairing_wkdibe_secretkey_t key0; memset(&key0, 0, sizeof key0); key0.b = b4;
+    { embedded_pairing_wkdibe_attributelist_t none; none.attrs = NULL; none.length = 0; none.omitAllFromKeysUnlessPresent = true; RESEED(79); embedded_pairing_wkdibe_keygen(&key0, &w.p, &w.m, &none, rng_cb); }
+#define LEN_P (t % 4 == 3 ? &w0.p : &w.p)
+#define LEN_K (t % 4 == 3 ? &key0 : &par)
+    ROW(embedded_pairing_wkdibe_params_unmarshalled_length, { bool c = t & 1; size_t n = embedded_pairing_wkdibe_params_get_marshalled_length(LEN_P, c) - (t % 3); embedded_pairing_wkdibe_params_marshal(m1, LEN_P, c);
         ok = embedded_pairing_wkdibe_params_unmarshalled_length(m1, n, c) == (c ? wk::Params::unmarshalledLength<true>(m1, n) : wk::Params::unmarshalledLength<false>(m1, n)); })
-    ROW(embedded_pairing_wkdibe_params_set_length, { bool c = t & 1; size_t n = embedded_pairing_wkdibe_params_get_marshalled_length(&w.p, c) - (t % 3); embedded_pairing_wkdibe_params_marshal(m1, &w.p, c);
+    ROW(embedded_pairing_wkdibe_params_set_length, { bool c = t & 1; size_t n = embedded_pairing_wkdibe_params_get_marshalled_length(LEN_P, c) - (t % 3); embedded_pairing_wkdibe_params_marshal(m1, LEN_P, c);
         embedded_pairing_wkdibe_params_t x; wk::Params y; x.l = -7; y.l = -7; int ra = embedded_pairing_wkdibe_params_set_length(&x, m1, n, c); int rb = c ? y.setLength<true>(m1, n) : y.setLength<false>(m1, n); ok = ra == rb && x.l == y.l; })
-    ROW(embedded_pairing_wkdibe_secretkey_unmarshalled_length, { bool c = t & 1; size_t n = embedded_pairing_wkdibe_secretkey_get_marshalled_length(&par, c) - (t % 3); embedded_pairing_wkdibe_secretkey_marshal(m1, &par, c);
+    ROW(embedded_pairing_wkdibe_secretkey_unmarshalled_length, { bool c = t & 1; size_t n = embedded_pairing_wkdibe_secretkey_get_marshalled_length(LEN_K, c) - (t % 3); embedded_pairing_wkdibe_secretkey_marshal(m1, LEN_K, c);
         ok = embedded_pairing_wkdibe_secretkey_unmarshalled_length(m1, n, c) == (c ? wk::SecretKey::unmarshalledLength<true>(m1, n) : wk::SecretKey::unmarshalledLength<false>(m1, n)); })
-    ROW(embedded_pairing_wkdibe_secretkey_set_length, { bool c = t & 1; size_t n = embedded_pairing_wkdibe_secretkey_get_marshalled_length(&par, c) - (t % 3); embedded_pairing_wkdibe_secretkey_marshal(m1, &par, c);
+    ROW(embedded_pairing_wkdibe_secretkey_set_length, { bool c = t & 1; size_t n = embedded_pairing_wkdibe_secretkey_get_marshalled_length(LEN_K, c) - (t % 3); embedded_pairing_wkdibe_secretkey_marshal(m1, LEN_K, c);
         embedded_pairing_wkdibe_secretkey_t x; wk::SecretKey y; x.l = -7; y.l = -7; int ra = embedded_pairing_wkdibe_secretkey_set_length(&x, m1, n, c); int rb = c ? y.setLength<true>(m1, n) : y.setLength<false>(m1, n); ok = ra == rb && x.l == y.l; })
     ROW(embedded_pairing_wkdibe_params_unmarshal, { bool c = t & 1; bool chk = (t >> 1) & 1; embedded_pairing_wkdibe_params_marshal(m1, &w.p, c); if (t >= 4) m1[60] ^= 2;
         WK x, y; memset(&x, 0, sizeof x); memset(&y, 0, sizeof y); x.p.h = x.h; y.p.h = y.h; x.p.l = L; y.p.l = L;
